@@ -25,7 +25,7 @@ fn spec() -> Spec {
         assumptions: vec![
             "accuracy 1e-6 m / 1e-6 rad plus slack 1e-9 + 1e-12*reach",
             "generating J1..J5 expected only when |sin t5|, |sin(t3+psi3)| and wrist-centre/axis-1 distance >= 1e-3",
-            "with the CONSTRAINT_CENTERED sentinel as previous the J6 clause is not evaluated (there is no caller value)",
+            "with the CONSTRAINT_CENTERED sentinel ([NaN,0,0,0,0,0]) as previous the caller's J6 is the sentinel's own entry 0, accepted up to whole turns (the solver normalises angles near the constraint centres)",
         ],
         minimums: vec![("oracle_evals", 10_000_000, 250_000_000), ("dof5_plain_inverse_calls", 100_000, 2_500_000), ("answers_checked", 3_000_000, 70_000_000)],
     }
@@ -34,7 +34,19 @@ fn spec() -> Spec {
 fn run_case(_kind: &str, idx: u64, rng: &mut Rng, mon: &mut Mon, _tier: Tier) {
     let robot = gen_robot(rng, idx, RobotMode::NonDegenerate, 0.5);
     let rp = robot.rp;
-    let bare: Arc<dyn rs_opw_kinematics::kinematic_traits::Kinematics> = Arc::new(OPWKinematics::new(to_params(&rp)));
+    // a quarter of the robots carries limits on J6 only (asymmetric about zero, so that the centre of the
+    // range is not zero); every J6 value used below lies inside, so no answer may be filtered out
+    let limited = rng.bool(0.25);
+    let lim = (-rng.range(0.6, 1.5), rng.range(1.6, 3.0));
+    let bare: Arc<dyn rs_opw_kinematics::kinematic_traits::Kinematics> = if limited {
+        let (mut from, mut to) = ([0.0; 6], [0.0; 6]);
+        from[5] = lim.0;
+        to[5] = lim.1;
+        mon.count("robots_with_j6_limits");
+        Arc::new(OPWKinematics::new_with_constraints(to_params(&rp), rs_opw_kinematics::constraints::Constraints::new(from, to, rng.range(0.0, 1.0))))
+    } else {
+        Arc::new(OPWKinematics::new(to_params(&rp)))
+    };
     let layers: Vec<Layer> = match rng.usize(4) {
         0 => vec![],
         1 => gen_stack(rng, 1, true, &["Tool"]),
@@ -52,7 +64,8 @@ fn run_case(_kind: &str, idx: u64, rng: &mut Rng, mon: &mut Mon, _tier: Tier) {
     let pose = fr_to_iso(&target);
     let j6 = *rng.pick(&[0.0, PI, -PI, 1e3, rng.clone().range(-2.0 * PI, 2.0 * PI), q[5]]);
     let _ = rng.next_u64();
-    let sentinel = rng.bool(0.1);
+    let j6 = if limited { rng.range(-0.5, 0.5) } else { j6 };
+    let sentinel = rng.bool(if limited { 0.4 } else { 0.1 });
     let mut prev = q;
     for j in 0..5 {
         prev[j] += rng.range(-0.3, 0.3);
@@ -73,7 +86,7 @@ fn run_case(_kind: &str, idx: u64, rng: &mut Rng, mon: &mut Mon, _tier: Tier) {
 
     let entries: &[Entry] = if rp.dof == 5 { &ENTRIES } else { &[Entry::FiveDof, Entry::Continuing5] };
     for &e in entries {
-        let detail = |what: &str, extra: serde_json::Value| json!({"robot": robot_json(&robot), "stack": stack_json(&layers), "entry": e.name(), "q": jf(&q), "prev": jf(&prev), "j6": j6, "clause": what, "extra": extra});
+        let detail = |what: &str, extra: serde_json::Value| json!({"robot": robot_json(&robot), "stack": stack_json(&layers), "entry": e.name(), "q": jf(&q), "prev": jf(&prev), "j6": j6, "j6_limits": if limited { json!([lim.0, lim.1]) } else { json!(null) }, "clause": what, "extra": extra});
         if rp.dof == 5 && e == Entry::Inverse {
             mon.count("dof5_plain_inverse_calls");
         }
@@ -102,8 +115,13 @@ fn run_case(_kind: &str, idx: u64, rng: &mut Rng, mon: &mut Mon, _tier: Tier) {
         let expected_j6: Option<f64> = match e {
             Entry::Inverse => Some(0.0),
             Entry::FiveDof => Some(j6),
+            // (the sentinel vector CONSTRAINT_CENTERED = [NaN, 0, 0, 0, 0, 0] carries 0 in its J6 slot; the
+            // solver may normalise that value near the centre of the J6 range, i.e. add whole turns)
             Entry::Continuing | Entry::Continuing5 => if sentinel { None } else { Some(prev[5]) },
         };
+        if sentinel && e.is_continuing() {
+            mon.count("sentinel_j6_checked");
+        }
         let mut found_generating = false;
         for s in &sols {
             mon.count("answers_checked");
@@ -118,6 +136,14 @@ fn run_case(_kind: &str, idx: u64, rng: &mut Rng, mon: &mut Mon, _tier: Tier) {
                 mon.violation(&format!("tool-axis:{}", cell), "5-DOF answer does not reproduce the tool axis", detail("tool-axis", json!({"solution": jf(s), "da": da})));
             } else {
                 mon.held();
+            }
+            if sentinel && e.is_continuing() {
+                let turns = (s[5] - CONSTRAINT_CENTERED[5]) / (2.0 * PI);
+                if !((turns - turns.round()).abs() <= 1e-12) {
+                    mon.violation(&format!("j6-not-callers-value:sentinel:{}", cell), "with the CONSTRAINT_CENTERED sentinel as previous, joint 6 of a 5-DOF answer is not the sentinel's own J6 entry (0) up to whole turns", detail("j6", json!({"solution": jf(s), "expected_j6": "0 (mod 2*pi)", "limited": limited, "j6_limits": [lim.0, lim.1]})));
+                } else {
+                    mon.held();
+                }
             }
             if let Some(x) = expected_j6 {
                 if s[5].to_bits() != x.to_bits() && !(s[5] == x) {
